@@ -64,10 +64,10 @@ def gen_large(tier, seed):
     rng = Rng(seed + 3300)
     sizes = [4095, 4096, 4097, 65535, 65536, 131064, 131065, 2 ** 20 - 1, 2 ** 20, 2 ** 20 + 1, 2 ** 20 + 10]
     if tier != "quick":
-        sizes += [2 ** 20 + 131064, 2 ** 21 + 3, 3 * 2 ** 20]
+        sizes += [2 ** 20 + 131064, 2 ** 21 + 3]
     cases = []
     for i, sz in enumerate(sizes):
-        for kind in (("deliver", "get", "return") if (tier != "quick" or sz in (2 ** 20 + 1, 4097)) else ("deliver",)):
+        for kind in (("deliver", "get", "return") if ((tier != "quick" and sz <= 2 ** 20 + 10) or sz in (2 ** 20 + 1, 4097)) else ("deliver",)):
             g = mg.Gen(rng, chmax=2, bound=4, via_stream=rng.choice([0.0, 1.0]) if sz < 2 ** 19 else 0.0)
             h = g.open_channel(1); g.bind_opened(h, 1)
             cl = g.consume(h, "t1")
@@ -99,6 +99,6 @@ def suites(tier, seed):
             Suite("idle-consumer-backlog", "machine", lambda: [mg.backlog_cases(Rng(seed + 31), "consumer", 70000)], monitor=monitor, nontrivial=lambda c, il: True, canon=mg.canon_nondet, shrink=False, compare=(tier != "quick"), timeout=600,
                   rule="70 000 deliveries pile up unread in one consumer's queue; a delivery and a call on another channel are then served at once, and the idle consumer finally reads all 70 000 in order followed by its terminal message (quick: judged by the monitor only; thorough: also diffed against the Lean model, whose list queues make that quadratic)"),
             Suite("large-bodies", "machine", lambda: gen_large(tier, seed), monitor=monitor, nontrivial=lambda c, il: True, canon=mg.canon_nondet, candidate_ok=mg.candidate_ok, shards=4, shrink=False,
-                  rule="one content (delivery / get answer / return) of 4095, 4096, 4097, 65535, 65536, 131064, 131065, 2^20-1, 2^20, 2^20+1 bytes (thorough: also 2^20+131064, 2^21+3, 3*2^20) cut into frames of 64-128 KiB (bodies above 1 MiB: a first frame of exactly / about 1 MiB, then smaller ones), followed by a second small delivery: delivered once, intact, and the next message after it too"),
+                  rule="one content (delivery / get answer / return) of 4095, 4096, 4097, 65535, 65536, 131064, 131065, 2^20-1, 2^20, 2^20+1 bytes (thorough: also 2^20+131064, 2^21+3) cut into frames of 64-128 KiB (bodies above 1 MiB: a first frame of exactly / about 1 MiB, then smaller ones), followed by a second small delivery: delivered once, intact, and the next message after it too"),
             Suite("sessions", "machine", lambda: gen(tier, seed), monitor=monitor, nontrivial=nontrivial, canon=mg.canon_nondet, candidate_ok=mg.candidate_ok,
                   rule="random sessions: 2-6 channels x consumers; deliveries, gets and returns with bodies 0..300 B cut into body frames by every partition style (one / two / single bytes / random / with empty frames), other channels' frames and heartbeats interleaved inside a content, frames fed directly or through the stream with random read cuts and would-block points; queues drained at the end")]
